@@ -49,10 +49,19 @@ fn text_pool(rng: &mut Rng, slots: usize) -> Vec<String> {
             texts.push(pool::class_text(class, i % 2));
         }
     }
-    // layout variants that matter for position conversion: CRLF line ends, no final line break
+    // layout variants that matter for position conversion: CRLF line ends, no final line break;
+    // and edits that change only letter case or only whitespace
     let n = texts.len();
     for i in 0..n {
-        match rng.below(8) {
+        match rng.below(10) {
+            8 => {
+                let t: String = texts[i].chars().map(|c| if c.is_ascii_uppercase() { c.to_ascii_lowercase() } else { c.to_ascii_uppercase() }).collect();
+                texts.push(t);
+            }
+            9 => {
+                let t = texts[i].replace("  ", "\t ").replace(" := ", "  :=  ");
+                texts.push(t);
+            }
             0 => {
                 let t = texts[i].replace('\n', "\r\n");
                 texts.push(t);
@@ -74,6 +83,7 @@ fn version_for(rng: &mut Rng, counter: &mut i32) -> i32 {
         0 => *counter - 1,        // stale / repeated version
         1 => *counter + 7,        // gap
         2 => 0,
+        3 => -*counter,
         _ => *counter,
     }
 }
@@ -189,10 +199,21 @@ pub fn gen_c12(rng: &mut Rng, _thorough: bool) -> LspTrace {
             uris.push(*rng.pick(ODD_URIS));
         }
     }
-    let len = if rng.chance(1, 3) { rng.range(1, 6) } else { rng.range(4, 60) };
+    // one history in twenty is a request storm: 60-150 messages, mostly requests
+    let storm = rng.chance(1, 20);
+    let len = if storm { rng.range(60, 150) } else if rng.chance(1, 3) { rng.range(1, 6) } else { rng.range(4, 60) };
     let mut events = vec![];
     let mut counter = 0;
     for _ in 0..len {
+        if storm && rng.chance(3, 4) {
+            let id_kind = if rng.chance(2, 3) { 0 } else { rng.below(6) as u8 };
+            events.push(if rng.chance(1, 2) {
+                Event::SemTok { uri: rng.pick(&uris).to_string(), id_kind }
+            } else {
+                Event::UnknownRequest { method: rng.pick(UNKNOWN_REQUESTS).to_string(), uri: rng.pick(&uris).to_string(), id_kind }
+            });
+            continue;
+        }
         let e = match rng.below(12) {
             0 | 1 if en_unknown_req => Event::UnknownRequest { method: rng.pick(UNKNOWN_REQUESTS).to_string(), uri: rng.pick(&uris).to_string(), id_kind: if rng.chance(1, 2) { 0 } else { rng.below(6) as u8 } },
             2 | 3 if en_unknown_notif => {
@@ -265,12 +286,21 @@ fn with_trivia(rng: &mut Rng, text: &str) -> String {
 pub fn gen_c15(rng: &mut Rng, _thorough: bool) -> LspTrace {
     let slots = rng.range(1, 3);
     let base = text_pool(rng, slots);
-    let texts: Vec<String> = base.iter().map(|t| if rng.chance(2, 3) { with_trivia(rng, t) } else { t.clone() }).collect();
+    let mut texts: Vec<String> = base.iter().map(|t| if rng.chance(2, 3) { with_trivia(rng, t) } else { t.clone() }).collect();
+    // the same lines under the other line-ending convention (an editor's "convert line endings")
+    let n = texts.len();
+    for i in 0..n {
+        if rng.chance(1, 3) {
+            let t = if texts[i].contains("\r\n") { texts[i].replace("\r\n", "\n") } else { texts[i].replace('\n', "\r\n") };
+            texts.push(t);
+        }
+    }
     let mut uris: Vec<&str> = WS_URIS[..slots].to_vec();
     if rng.chance(1, 4) {
         uris.push(*rng.pick(ODD_URIS));
     }
     let allow_restart = rng.chance(1, 3);
+    let allow_multi = rng.chance(1, 3);
     let len = if rng.chance(1, 2) { rng.range(2, 8) } else { rng.range(6, 30) };
     let mut events = vec![];
     let mut counter = 0;
@@ -278,7 +308,7 @@ pub fn gen_c15(rng: &mut Rng, _thorough: bool) -> LspTrace {
         let e = match rng.below(10) {
             0 if allow_restart => Event::Restart,
             1 | 2 | 3 => Event::SemTok { uri: rng.pick(&uris).to_string(), id_kind: if rng.chance(3, 4) { 0 } else { rng.below(6) as u8 } },
-            _ => gen_edit_event(rng, &texts, &uris, &mut counter, false),
+            _ => gen_edit_event(rng, &texts, &uris, &mut counter, allow_multi),
         };
         events.push(e);
     }
@@ -727,7 +757,18 @@ fn oracle_c11(t: &LspTrace, h: &History, stats: &mut Stats) -> Vec<Violation> {
                         .map(|a| a.iter().map(|d| (d["code"].as_str().unwrap_or("").to_string(), d["range"]["start"]["line"].as_u64().unwrap_or(0), d["range"]["start"]["character"].as_u64().unwrap_or(0))).collect())
                         .unwrap_or_default();
                     let mut missing = vec![];
-                    let mut secondary_codes: Vec<String> = vec![];
+                    // (code, acceptable start positions) of check diagnostics that touch this file only
+                    // with a secondary label: the primary label's position in its own file, or the
+                    // secondary label's position in this file
+                    let mut secondary_codes: Vec<(String, Vec<(u64, u64)>)> = vec![];
+                    let mut by_base: BTreeMap<String, String> = BTreeMap::new();
+                    if t.use_ws_folder {
+                        // never-opened files of the workspace folder are part of the project too
+                        for (name, text) in &t.ws_files {
+                            by_base.insert(name.clone(), text.clone());
+                        }
+                    }
+                    by_base.extend(model.by_path().into_iter().map(|(p, t)| (base_name(&p).to_string(), t)));
                     for d in &diags {
                         if base_name(&d.primary.file) == base {
                             let pos = offset_to_line_col(&text, d.primary.start).unwrap_or((u64::MAX, u64::MAX));
@@ -737,17 +778,37 @@ fn oracle_c11(t: &LspTrace, h: &History, stats: &mut Stats) -> Vec<Violation> {
                                 missing.push((d.code.clone(), pos));
                             }
                         } else if d.secondary.iter().any(|l| base_name(&l.file) == base) {
-                            secondary_codes.push(d.code.clone());
+                            let mut acceptable = vec![];
+                            if let Some(pos) = by_base.get(base_name(&d.primary.file)).and_then(|t| offset_to_line_col(t, d.primary.start)) {
+                                acceptable.push(pos);
+                            }
+                            for l in d.secondary.iter().filter(|l| base_name(&l.file) == base) {
+                                if let Some(pos) = offset_to_line_col(&text, l.start) {
+                                    acceptable.push(pos);
+                                }
+                            }
+                            secondary_codes.push((d.code.clone(), acceptable));
                         }
                     }
                     // anything else published must be a check diagnostic that only touches this file with a secondary label
                     let mut extras = vec![];
+                    let mut misplaced = vec![];
                     for p in &pubset {
-                        if let Some(i) = secondary_codes.iter().position(|c| *c == p.0) {
-                            secondary_codes.remove(i);
+                        if let Some(i) = secondary_codes.iter().position(|c| c.0 == p.0) {
+                            let (_, acceptable) = secondary_codes.remove(i);
+                            if !acceptable.is_empty() && !acceptable.contains(&(p.1, p.2)) {
+                                misplaced.push((p.clone(), acceptable));
+                            }
                         } else {
                             extras.push(p.clone());
                         }
+                    }
+                    if !misplaced.is_empty() {
+                        out.push(viol(
+                            "C11",
+                            format!("C11/check-position-mismatch/{}", misplaced[0].0 .0),
+                            format!("for {base}: the server publishes {:?} for a problem whose primary label is in another document; `check` places that problem at one of {:?} (primary label in its file / secondary label in this file)", misplaced[0].0, misplaced[0].1),
+                        ));
                     }
                     if !missing.is_empty() || !extras.is_empty() {
                         let mut codes: Vec<String> = missing.iter().map(|m| format!("-{}", m.0)).chain(extras.iter().map(|e| format!("+{}", e.0))).collect();
@@ -806,6 +867,14 @@ fn line_col_table(text: &str) -> BTreeMap<(u32, u32), usize> {
     m.insert((line, col), text.len());
     m
 }
+
+/// Words that are keywords beyond doubt in IEC 61131-3 (delimiters of declarations and
+/// statements, elementary type names); deliberately not complete.
+const DEFINITE_KEYWORDS: &[&str] = &[
+    "FUNCTION_BLOCK", "END_FUNCTION_BLOCK", "FUNCTION", "END_FUNCTION", "PROGRAM", "END_PROGRAM", "VAR", "END_VAR", "VAR_INPUT", "VAR_OUTPUT",
+    "VAR_EXTERNAL", "VAR_GLOBAL", "TYPE", "END_TYPE", "STRUCT", "END_STRUCT", "IF", "THEN", "ELSE", "END_IF", "CONFIGURATION", "END_CONFIGURATION",
+    "RESOURCE", "END_RESOURCE", "TASK", "WITH", "BOOL", "INT", "DINT", "SINT", "UINT", "REAL",
+];
 
 fn check_tokens(text: &str, data: &[u64], legend: &[String]) -> Result<usize, (String, String)> {
     let (tokens, lex) = tokenize_program(text, &FileId::default(), &ParseOptions::default());
@@ -873,6 +942,11 @@ fn check_tokens(text: &str, data: &[u64], legend: &[String]) -> Result<usize, (S
             Some("variable")
         } else if matches!(t.as_str(), "+" | "-" | "*" | "/" | "**" | ":=" | "=" | "<>" | "<" | ">" | "<=" | ">=") {
             Some("operator")
+        } else if matches!(t.to_uppercase().as_str(), "AND" | "OR" | "XOR" | "NOT" | "MOD") {
+            // word operators of IEC 61131-3 (Table 55)
+            Some("operator")
+        } else if DEFINITE_KEYWORDS.contains(&t.to_uppercase().as_str()) {
+            Some("keyword")
         } else {
             None
         };
